@@ -1,7 +1,7 @@
 ------------------------------ MODULE MsgTrace ------------------------------
 (* Acceptor for recordings of real event / MQTT / webhook triggers (C08), reusing MsgCore.    *)
 (* A case: [id, trigs : <<T>>, bursts : << [msgs : <<M>>, runs : <<R>>, emits : <<E>>] >>,   *)
-(*          ends : <<[fid, tag, n]>>]                                                          *)
+(*          ends : <<[fid, tag, n, tid]>>]                                                          *)
 (*  M = [kind, key, d, args, ctx]  d = data the filter sees, args = keyword arguments HA      *)
 (*      hands over besides the type header (for events = d), ctx = occurrence context id      *)
 (*  R = [fid, tag, n, kw, tid, inctx]  one observed run start: n = message number it reports, *)
@@ -54,12 +54,13 @@ BurstWhy(c, b) ==
   ELSE ""
 
 \* every run that was started also ended, still holding the parameters of its own message (runs overlap: earlier
-\* ones sleep while later ones start); ends = <<[fid, tag, n]>> collected after everything has finished
+\* ones sleep while later ones start); ends = <<[fid, tag, n, tid]>> collected after everything has finished;
+\* tid is the identity of the task the run executes in, so two overlapping runs that swap their parameters are told apart
 Count(seq, x) == Cardinality({ k \in 1..Len(seq) : seq[k] = x })
 AllRuns(c) == LET RECURSIVE Cat(_)
                   Cat(k) == IF k > Len(c.bursts) THEN <<>>
                             ELSE [j \in 1..Len(c.bursts[k].runs) |-> [fid |-> c.bursts[k].runs[j].fid, tag |-> c.bursts[k].runs[j].tag,
-                                                                      n |-> c.bursts[k].runs[j].n]] \o Cat(k + 1)
+                                                                      n |-> c.bursts[k].runs[j].n, tid |-> c.bursts[k].runs[j].tid]] \o Cat(k + 1)
               IN Cat(1)
 EndsOk(c) == LET rs == AllRuns(c) IN
              /\ Len(rs) = Len(c.ends)
